@@ -88,6 +88,32 @@ OpsMatrix(ops, rows) == ApplyOps(Identity(rows), ops)
 \* the column operations of ColOps are the row operations of the transpose
 ApplyColOps(M, ops) == Transpose(ApplyOps(Transpose(M), ops))
 
+\* constructors and Hamming-weight helpers (Mat2::zeros / ones / id / unit_vector, row_weight / weight / unit_rows)
+ZerosMat(r, c) == [i \in 1..r |-> [j \in 1..c |-> 0]]
+OnesMat(r, c) == [i \in 1..r |-> [j \in 1..c |-> 1]]
+UnitVectorMat(dim, i0) == [i \in 1..dim |-> <<IF i - 1 = i0 THEN 1 ELSE 0>>]          \* a dim x 1 column, i0 0-based
+VecWeight(v) == Cardinality({j \in 1..Len(v) : v[j] = 1})
+RowWeights(M) == [i \in 1..Len(M) |-> VecWeight(M[i])]
+RECURSIVE SumSeqFrom(_, _)
+SumSeqFrom(ws, i) == IF i > Len(ws) THEN 0 ELSE ws[i] + SumSeqFrom(ws, i + 1)
+Weight(M) == SumSeqFrom(RowWeights(M), 1)
+\* the 0-based numbers of the rows with exactly one 1, ascending
+RECURSIVE UnitRowsFrom(_, _)
+UnitRowsFrom(M, i) == IF i > Len(M) THEN <<>> ELSE (IF VecWeight(M[i]) = 1 THEN <<i - 1>> ELSE <<>>) \o UnitRowsFrom(M, i + 1)
+UnitRows(M) == UnitRowsFrom(M, 1)
+\* the largest count the helpers' return type (u8) can hold
+MaxU8 == 255
+\* entries written through IndexMut<(usize, usize)>: sets = sequence of <<i0, j0, v>>, 0-based
+RECURSIVE ApplySetsFrom(_, _, _)
+ApplySetsFrom(M, sets, k) == IF k > Len(sets) THEN M
+                             ELSE ApplySetsFrom([M EXCEPT ![sets[k][1] + 1][sets[k][2] + 1] = sets[k][3]], sets, k + 1)
+ApplySets(M, sets) == ApplySetsFrom(M, sets, 1)
+\* Display for Mat2 (transcription): one line "[ x x x ]" per row
+RECURSIVE RowTextFrom(_, _)
+RowTextFrom(v, j) == IF j > Len(v) THEN "" ELSE ToString(v[j]) \o " " \o RowTextFrom(v, j + 1)
+RowText(v) == "[ " \o RowTextFrom(v, 1) \o "]"
+MatLines(M) == [i \in 1..Len(M) |-> RowText(M[i])]
+
 InKernel(M, v) == \A i \in 1..Len(M) : Dot(M[i], v) = 0
 Kernel(M) == {v \in AllVecs(NCols(M)) : InKernel(M, v)}
 
@@ -246,5 +272,11 @@ NullShape(M, vs) == \A t \in 1..Len(vs) : IsVec(vs[t], NCols(M))
 NullAnnihilated(M, vs) == \A t \in 1..Len(vs) : InKernel(M, vs[t])
 NullIndependent(M, vs, small) == IF small THEN Cardinality(SpanOf(vs, NCols(M))) = 2^Len(vs) ELSE RankElim(vs) = Len(vs)
 NullCount(M, vs, small) == Len(vs) = NCols(M) - RankOf(M, small)
+\* the helpers around the routines: constructors, Hamming weights (for counts the u8 return type can hold), entry access
+CtorOK(kind, r, c, i0, out) ==
+  out = (CASE kind = "zeros" -> ZerosMat(r, c) [] kind = "ones" -> OnesMat(r, c) [] kind = "id" -> Identity(r) [] kind = "unit_vector" -> UnitVectorMat(r, i0))
+RowWeightOK(M, ret) == ret = RowWeights(M)
+WeightOK(M, ret) == ret = Weight(M)
+UnitRowsOK(M, ret) == ret = UnitRows(M)
 NullspaceOK(M, vs, small) == NullShape(M, vs) /\ NullAnnihilated(M, vs) /\ NullIndependent(M, vs, small) /\ NullCount(M, vs, small)
 =============================================================================
